@@ -87,9 +87,9 @@ func RunJob(t *testing.T, job Job) *Partial {
 		prof := job.Profiles[i%len(job.Profiles)]
 		specs := []RunSpec{{Seed: runSeed(job.Seed, job.Property, i), Profile: prof}}
 		run := engineRun(job.Engine)
-		if prof == "sweep" {
+		if isSweepProfile(prof) {
 			// fault enumeration around sampled reconciles of this seed
-			specs = SweepPlans(t, specs[0].Seed)
+			specs = SweepPlans(t, specs[0].Seed, sweepBaseOf(prof))
 			run = RunSweep
 			p.Counters["sweep.base_runs"]++
 		}
